@@ -194,13 +194,15 @@ def matchItem(reader: io.Reader) -> Optional[ItemInfo]:
     # Check if the line matches a List definition.
     if reader.eof():
         return None
+    if reader.escaped == reader.pos:
+        return None     # An escaped line is paragraph text.
     item = ItemInfo()  # ItemInfo factory.
     # Check if the line matches a list item.
     for d in defs:
         match = d.match.search(reader.cursor)
         if match is not None:
             if match[0][0] == '\\':
-                reader.cursor = reader.cursor[1:]  # Drop backslash.
+                reader.unescape()  # Drop backslash.
                 return None
             item.match = match
             item.listdef = d
